@@ -813,7 +813,7 @@ def run_c11(tier, seed, t0, replay_item=None):
         raise Infra("; ".join(infra[:4]))
     for m in infra[:5]:
         log("[C11] skipped: " + m)
-    rep.coverage = {"states": max(1, mc["distinct"] + lin_states), "transitions": max(1, mc["generated"] + calls),
+    rep.coverage = {"states": max(1, mc["distinct"]), "transitions": max(1, mc["generated"]), "lin_states_explored": lin_states, "recorded_calls": calls,
                     "traces_validated_against_impl": runs, "samples": samples or ["none"],
                     "evaluations": calls, "distinct_nontrivial": len(shapes), "overlapping_call_pairs": overlaps,
                     "rule": "2..8 goroutines run seeded programs (private-directory writes/appends/reads, shared-directory mkdir/mkdirall/remove/removeall/rename/chmod/chown/chtimes/stat/list) on one instance built with -race, with yields and sleeps injected at the drive, index-store and write-cache seams; every history is checked for linearizability by TLC (spec/Lin.tla reuses the actions of STFS.tla) and the final state is rebuilt from the tape; distinct = distinct multisets of (client, call kind)",
